@@ -384,4 +384,7 @@ def run(ctx, progs):
         r5_scope_marker_impls(ctx, P)
         from . import c18
         c18.r4_conversions(ctx, P, R="C04.R6")
+        if any((b_.item.get("file") or "").endswith("bump_pool.rs") for b_ in P.fn_bodies()):
+            from . import c19
+            c19.r2_one_owner(ctx, P, R="C04.R7")
     ctx.config = None
